@@ -282,6 +282,9 @@ inductive Step where
   | xFresh
   /-- `check_X(X, n_feats=…, edge_knots=…, dtypes=…, features=…)` -/
   | xFitted
+  /-- `check_X(X, n_feats=statistics_['m_features'])` of `gridsearch` on a fitted model: finite, fitted width,
+  no categories (the candidates are refitted) -/
+  | xFittedWidth
   /-- `_modelmat(X, term=i)`: the same, but only the categorical domain of the requested term -/
   | xFittedTerm
   /-- the same for `sample_at_X` (skipped when absent or `quantity='coef'`) -/
@@ -296,8 +299,6 @@ inductive Step where
   | lenEq (a b : LenArg)
   /-- PoissonGAM: `weights * exposure` is cast to float32 and checked again by `GAM.fit` / `gridsearch` -/
   | prodFinite
-  /-- `loglikelihood`: `y` and `mu = predict_mu(X)` meet only in a broadcasting NumPy expression -/
-  | broadcastXY
   deriving Repr, DecidableEq
 
 /-- the exception class a failing step raises -/
@@ -341,6 +342,10 @@ def Step.passes (m : Model) (a : Args) : Step → Bool
       match m.fit with
       | some f => checkXFitted f a.X
       | none => false
+  | .xFittedWidth =>
+      match m.fit with
+      | some f => checkArray2 a.X (some f.mFeatures)
+      | none => false
   | .xFittedTerm =>
       match m.fit with
       | some f => checkXFittedTerm f a.term a.X
@@ -372,7 +377,6 @@ def Step.passes (m : Model) (a : Args) : Step → Bool
       match prodWE a with
       | none => true
       | some v => checkArray1 v
-  | .broadcastXY => decide (a.X.length = a.y.length ∨ a.X.length = 1 ∨ a.y.length = 1)
 
 /-- run the steps in order; the first failing step decides -/
 def runSteps (m : Model) (a : Args) : List Step → Outcome
@@ -416,29 +420,32 @@ def table (e : Entry) (fitted converged : Bool) : List Step :=
   | .partialDependence => [.fitted, .xFittedTerm]
   | .devianceResiduals | .score => scoreSteps
   | .loglikelihood =>
-      [.yFinite false, .linkResolved, .yDomain false, .fitted, .xFitted,
-       .vecFinite .weights, .lenEq .y .weights, .broadcastXY]
+      [.yFinite false, .linkResolved, .yDomain false, .fitted, .xFitted, .lenXY,
+       .vecFinite .weights, .lenEq .y .weights]
   | .accuracy | .logisticScore => [.fitted, .yFinite false, .yDomain false, .xFitted, .lenXY]
   | .gridsearch =>
       if fitted then
-        -- every candidate `fit` runs inside `try … except ValueError: continue`: a failing `compile` is swallowed
-        [.yFinite false, .yDomain false, .xFresh, .lenXY, .vecFinite .weights, .lenEq .y .weights]
+        -- the width of X is checked against the fit up front; every candidate `fit` then runs inside
+        -- `try … except ValueError: continue`
+        [.yFinite false, .yDomain false, .xFittedWidth, .lenXY, .vecFinite .weights, .lenEq .y .weights]
       else
         [.yFinite false, .yDomain false, .xFresh, .lenXY, .compile, .vecFinite .weights, .lenEq .y .weights]
   | .sample => scoreSteps ++ [.sampleAtXFitted]
   | .fitQuantile =>
       if fitted then
-        [.yFinite false, .yDomain false, .lenXY, .xFitted] ++ (if converged then [] else fitSteps false)
+        -- y, lengths and weights are validated up front; `predict(X)` inside the search checks X against the fit
+        [.yFinite false, .yDomain false, .lenXY, .vecFinite .weights, .lenEq .y .weights, .xFitted]
+          ++ (if converged then [] else fitSteps false)
       else fitSteps false
   | .poissonFit => exposureSteps ++ fitSteps true
   | .poissonPredict => [.fitted, .xFitted, .vecFinite .exposure, .lenEq .X .exposure]
   | .poissonLoglikelihood =>
-      [.yFinite false, .linkResolved, .yDomain false, .fitted, .xFitted,
-       .vecFinite .weights, .lenEq .y .weights] ++ exposureSteps ++ [.broadcastXY]
+      [.yFinite false, .linkResolved, .yDomain false, .fitted, .xFitted, .lenXY,
+       .vecFinite .weights, .lenEq .y .weights] ++ exposureSteps
   | .poissonGridsearch =>
       exposureSteps ++
       (if fitted then
-        [.yFinite true, .yDomain true, .xFresh, .lenXY, .prodFinite, .lenEq .y .weights]
+        [.yFinite true, .yDomain true, .xFittedWidth, .lenXY, .prodFinite, .lenEq .y .weights]
       else
         [.yFinite true, .yDomain true, .xFresh, .lenXY, .compile, .prodFinite, .lenEq .y .weights])
 
